@@ -1,3 +1,100 @@
-import HioModel.Memo.Model
+import HioModel.Memo.RxLemmas
+/-!
+# C22 — memo receivers survive arbitrary datagrams and accept only authentic memos
+
+Property theorems only.  Model: `HioModel/Memo/Model.lean` (`pick`, `recvOne` = `_serviceOneReceived`, `recvLoop` =
+`serviceReceives`, `fuse`, `fuseAll` = `_serviceOnceRxGrams`, `serviceAllRx`, `runBatches` = any history of service calls)
+of the tree at branch fix/memo (pre-finding F36 repaired).  Every raising operation of `pick` / `fuse` carries its Python
+exception class; the class sets of the two `except` clauses, the size table and the codexes are regenerated from the source
+on every run.  `Memoer.verify` is the parameter `V`.
+
+Assumptions on `V` (hypotheses, never axioms):
+* `VSafe V`   — whatever `verify` raises is a class the `except` clause of `_serviceOneReceived` stops (the real one raises
+                MemoerError / MemoerVerifyError / UnicodeDecodeError / binascii.Error; checked on every sampled call);
+* `V [] s m ≠ ok` — `verify` rejects an empty vid (the real one raises MemoerError from `_decodeVID`).
+-/
 namespace Hio.Memo
+
+/-- C22.1 for one datagram: for EVERY non-empty datagram, receiver state, source and mode, `_serviceOneReceived` does not raise -/
+theorem rx_total (authic : Bool) (V : Bytes → Bytes → Bytes → Except Exn Unit) (hV : VSafe V) (es : List Entry) (gram : Bytes) (src : Nat)
+    (hne : gram ≠ []) : ∃ es', recvOne authic V es gram src = .ok es' :=
+  recvOne_total authic V es gram src hV hne
+
+/-- C22.1 for a whole service call: `serviceAllRx()` over ANY queue of datagrams (empty ones included) from ANY state never raises
+(receive loop, `fuse` of every memo id — gram numbers beyond the count, non UTF-8 memo bytes — and delivery) -/
+theorem service_total (authic : Bool) (V : Bytes → Bytes → Bytes → Except Exn Unit) (hV : VSafe V) (es : List Entry) (q : List (Bytes × Nat)) :
+    ∃ o, serviceAllRx authic V es q = .ok o :=
+  serviceAllRx_total authic V hV es q
+
+/-- … and for any history of service calls -/
+theorem history_total (authic : Bool) (V : Bytes → Bytes → Bytes → Except Exn Unit) (hV : VSafe V) (bs : List (List (Bytes × Nat))) :
+    ∃ r, runBatches authic V bs [] [] = .ok r :=
+  runBatches_total authic V hV bs [] []
+
+/-- the classes header parsing can raise are all stopped by the regenerated `except` clause (re-checked by `decide` on every run);
+`UnboundLocalError` (ack codes, before the fix) is NOT — the model raises `MemoerError` for acks like the fixed code -/
+theorem parse_classes_caught :
+    rxCatches .memoerError = true ∧ rxCatches .memoerVerifyError = true ∧ rxCatches .keyError = true ∧ rxCatches .valueError = true ∧
+      rxCatches .unicodeDecodeError = true ∧ rxCatches .binasciiError = true ∧ fuseCatches .unicodeDecodeError = true ∧
+      rxCatches .unboundLocalError = false := by decide
+
+/-- C22.2: an invalid gram (one `pick` rejects) is dropped — the receiver state is unchanged -/
+theorem rx_invalid_dropped (authic : Bool) (V : Bytes → Bytes → Bytes → Except Exn Unit) (hV : VSafe V) (es : List Entry) (gram : Bytes) (src : Nat)
+    (e : Exn) (hne : gram ≠ []) (h : pick authic (vidOfEntries es) V gram = .error e) : recvOne authic V es gram src = .ok es := by
+  have hc : rxCatches e = true := by
+    rcases pick_err _ _ _ _ _ hne h with h1 | ⟨v, s, m, h1⟩
+    · exact parseExn_caught e h1
+    · exact hV v s m e h1
+  simp [recvOne, h, hc]
+
+/-- C22.3 (authentic): with signed grams required, from the empty state, after ANY history of service calls over ANY datagrams:
+every delivered memo carries a vid, and its text is a concatenation of bodies each of which is the tail of a signed part whose
+signature passed `verify` under exactly that vid; the same holds for every gram still stored -/
+theorem authentic (V : Bytes → Bytes → Bytes → Except Exn Unit) (hV0 : ∀ s m, V [] s m ≠ .ok ()) (bs : List (List (Bytes × Nat)))
+    (es : List Entry) (q : List (Bytes × Nat)) (ds : List (List Memo)) (h : runBatches true V bs [] [] = .ok (es, q, ds)) :
+    (∀ d ∈ ds, ∀ m ∈ d, AuthMemo V m) ∧ AInv V es := by
+  have hinv : AInv V [] := by intro e he; cases he
+  obtain ⟨h1, h2⟩ := runBatches_auth V hV0 bs [] [] _ hinv h
+  exact ⟨h2, h1⟩
+
+/-- C22.3 (tampered content is dropped): with signed grams required, a datagram whose signed pair does not verify under ANY vid
+leaves the receiver unchanged.  By `split_recompose` the signed pair determines the datagram, so a datagram that differs in
+any byte from every datagram the key holder produced has a pair the key holder never signed; under unforgeability
+(`verify` accepts only pairs the key holder signed) every single-byte mutation of a signed gram is therefore dropped. -/
+theorem tampered_dropped (V : Bytes → Bytes → Bytes → Except Exn Unit) (hV : VSafe V) (es : List Entry) (gram sig fore : Bytes) (src : Nat)
+    (hne : gram ≠ []) (hs : splitSig gram = some (sig, fore)) (hbad : ∀ vid, V vid sig fore ≠ .ok ()) :
+    recvOne true V es gram src = .ok es := by
+  cases hp : pick true (vidOfEntries es) V gram with
+  | error e => exact rx_invalid_dropped true V hV es gram src e hne hp
+  | ok p =>
+    obtain ⟨sig', fore', vid, h1, h2⟩ := pick_ver _ V gram p hp
+    rw [hs] at h1; cases h1
+    exact absurd h2 (hbad vid)
+
+/-- the signed pair determines the datagram (so "another datagram" means "another signed pair") -/
+theorem signed_pair_determines_gram (gram sig fore : Bytes) (h : splitSig gram = some (sig, fore)) :
+    ∃ raw, gram = fore ++ raw ∧ (sig = raw ∨ sig = encodeB64 raw ∨ (raw = [] ∧ sig = [])) :=
+  split_recompose gram sig fore h
+
+/-- with signed grams required an unsigned gram is never stored: a gram that `pick` accepts had its signed pair verified -/
+theorem authic_requires_verified (V : Bytes → Bytes → Bytes → Except Exn Unit) (vidOf : Bytes → Option Bytes) (gram : Bytes) (p : PG)
+    (h : pick true vidOf V gram = .ok p) : ∃ sig fore vid, splitSig gram = some (sig, fore) ∧ V vid sig fore = .ok () :=
+  pick_ver vidOf V gram p h
+
+/-! ### non-vacuity: the hypotheses are satisfiable, and concrete tests (bounded checks) -/
+
+/-- a verify that accepts exactly one triple: satisfies both assumptions -/
+def Vone (v s m : Bytes) : Except Exn Unit := if v = [66] ∧ s = [1] ∧ m = [2] then .ok () else .error .memoerVerifyError
+
+example : VSafe Vone := by
+  intro v s m e h
+  unfold Vone at h; split at h
+  · simp at h
+  · cases h; decide
+example : ∀ s m, Vone [] s m ≠ .ok () := by intro s m; simp [Vone]
+/-- test: an unknown code `bZZZ…` is dropped (KeyError caught) -/
+example : recvOne false Vone [] ([98, 90, 90, 90] ++ List.replicate 40 65) 1 = .ok [] := by rfl
+/-- test: an ack code is dropped -/
+example : recvOne false Vone [] ([98, 65, 65, 73] ++ List.replicate 40 65) 1 = .ok [] := by rfl
+
 end Hio.Memo
